@@ -303,9 +303,12 @@ let do_sf line args res =
   (match args with
   | ["begin"; _id; mode; base; stride] ->
       incr ncases; sf_impl_k := 1;
-      let s = { vs = init_vsys (nat_of 8); modeE = (mode = "E"); base = zh base; stride = zh stride; begk = Hashtbl.create 8; nsp = 0; reported = Hashtbl.create 8; excused = Hashtbl.create 8 } in
+      let s = { vs = init_vsys (nat_of 8); modeE = (mode <> "" && mode.[0] = 'E'); base = zh base; stride = zh stride; begk = Hashtbl.create 8; nsp = 0; reported = Hashtbl.create 8; excused = Hashtbl.create 8 } in
       sfs := s;
-      sf_ev s EIssueEnv; sf_ev s (EPublish O)
+      (* the constructor fetches pd(0) for the global scope; a never-used scope (mode suffix f) has nothing cached *)
+      sf_ev s EIssueEnv;
+      if not (String.length mode >= 2 && mode.[String.length mode - 1] = 'f') then sf_ev s (EPublish O);
+      bump ("sf:scope:" ^ (if String.length mode >= 2 then "fresh" else "global"))
   | ["issue"] -> sf_ev s EIssueEnv; after_step ()
   | ["publish"] -> let i = s.vs.vk in sf_ev s EIssueEnv; sf_ev s (EPublish i); after_step ()
   | ["spawn"; _t; read; stale] ->
